@@ -250,7 +250,7 @@ def inline_locals(func_or_cfg, expr, at_node, rd, depth=6, stop=None):
     `expr` (evaluated at cfg node at_node); returns a new expression.
     Names with several reaching definitions, parameters and unpack targets
     are left alone."""
-    import copy
+    from .match import clone
 
     def sub(e, node, d):
         if d <= 0:
@@ -267,10 +267,10 @@ def inline_locals(func_or_cfg, expr, at_node, rd, depth=6, stop=None):
                     df = next(iter(ds))
                     if df.kind == "assign" and isinstance(df.value, ast.AST) \
                             and df.node is not None:
-                        return sub(copy.deepcopy(df.value), df.node, d - 1)
+                        return sub(clone(df.value), df.node, d - 1)
                 return n
 
             def visit_Lambda(self, n):
                 return n
         return T().visit(e)
-    return sub(copy.deepcopy(expr), at_node, depth)
+    return sub(clone(expr), at_node, depth)
